@@ -29,7 +29,7 @@ func main() {
 	thorough := fs.Bool("thorough", false, "consult all solvers")
 	tier := fs.String("tier", envOr("VERIF_TIER", "quick"), "quick|thorough")
 	verbose := fs.Bool("v", false, "verbose")
-	jobs := fs.Int("j", runtime.NumCPU(), "parallel solver processes")
+	jobs := fs.Int("j", (runtime.NumCPU()+1)/2, "obligations in flight (each races up to three solver processes)")
 	dump := fs.Bool("dump", false, "only write scripts")
 	cover := fs.Bool("cover", false, "cover (vacuity) obligations only: each must NOT be unsat")
 	fs.Parse(os.Args[2:])
